@@ -36,4 +36,13 @@ theorem writes_classified :
     Generated.lazyFieldWrites.all (fun w => constructors.contains w.2 || perResultWriters.contains w.2) = true := by
   decide
 
+/-- **F17 (C15): no package-level state is mutated at run time.**  The ownership model has two kinds of
+    locations only: objects a goroutine holds between `Get` and `Put`, and tables that are written by
+    constructors and read afterwards.  A package-level variable that some function of lazyproto assigns,
+    indexes into, appends to, deletes from, takes the address of, or hands to another function as a map /
+    slice / pointer would be a third kind — reachable from every goroutine with no `Put`/`Get` between the
+    accesses (variables of `sync` / `sync/atomic` types are synchronised by construction and not listed).  The
+    regenerated table of such mutations is empty. -/
+theorem no_package_level_state_mutated : Generated.lazyGlobalWrites = [] := by decide
+
 end Csproto.Bridge
